@@ -235,6 +235,12 @@ def Hiso (s : Shared) : List Nat → Bool
   | [] => true
   | a :: rest => isoStep s a && Hiso (stepParty s a) rest
 
+/-- `H_iso` asked only of the steps of the parties outside `cl` (used for the external client, whose
+steps need no isolation hypothesis when it keeps to names no mdsort process generates). -/
+def HisoExcept (cl : List Nat) (s : Shared) : List Nat → Bool
+  | [] => true
+  | a :: rest => (cl.contains a || isoStep s a) && HisoExcept cl (stepParty s a) rest
+
 /-- `H_iso` as the task words it: no `readdir` of a party returns a name another party has in flight. -/
 def isoReaddirStep (s : Shared) (a : Nat) : Bool :=
   match s.parties[a]? with
@@ -266,6 +272,11 @@ deriving Repr, DecidableEq
 def ClientOp.call : ClientOp → Call
   | .rename d1 n1 d2 n2 => .renameat d1 n1 d2 n2
   | .unlink d n => .unlinkat d n
+
+/-- The names the operation mentions are outside `N`. -/
+def ClientOp.avoids (N : Bytes → Prop) : ClientOp → Prop
+  | .rename _ n1 _ n2 => ¬ N n1 ∧ ¬ N n2
+  | .unlink _ n => ¬ N n
 
 def clientProg : List ClientOp → Prog Bool
   | [] => .ret false
